@@ -1403,6 +1403,34 @@ Proof.
 Qed.
 
 
+(* ================================================================== L: add_blocker keeps the representation (this is how "arbitrary 1-skeleta and blocker sets"
+   are set up): sigma a simplex of K of dimension >= 2 that is not inside a stored blocker *)
+Lemma add_blocker_In (c : cplx) (s b : simplex) : In b (blk (add_blocker c s)) <-> In b (blk c) \/ b = s.
+Proof.
+  unfold add_blocker. destruct (contains_blocker c s) eqn:E; simpl.
+  - split; auto. intros [H| ->]; auto. unfold contains_blocker in E. destruct (dim s <? 2); [discriminate|].
+    apply lmem_In in E. unfold blockers_at in E. apply filter_In in E. tauto.
+  - rewrite in_app_iff. simpl. intuition.
+Qed.
+
+Theorem add_blocker_keeps_representation (c : cplx) K (sigma : simplex) :
+  closed K -> represents c K -> inc sigma -> (3 <= length sigma)%nat -> K sigma = true ->
+  (forall b, In b (blk c) -> ssub sigma b = false) ->
+  represents (add_blocker c sigma) (K_rs K sigma).
+Proof.
+  intros Hc [R1 [R2 R3]] Hi Hl Hk Hno. split; [|split].
+  - intros t Ht. rewrite add_blocker_spec; auto using inc_NoDup. rewrite (R1 t Ht). unfold K_rs. rewrite inc_ssub_subb; auto.
+  - intros b. rewrite add_blocker_In. rewrite (remove_star_blockers K sigma Hc Hk b). split.
+    + intros [Hb| ->].
+      * pose proof (Hno b Hb) as Hs. apply R2 in Hb. destruct Hb as [Hb1 [Hb2 Hb3]]. split; auto. split; auto. right. split; auto.
+        intros H. apply (sorted_ssub_sub b sigma Hi Hb1) in H. congruence.
+      * split; auto.
+    + intros [Hb1 [[->|[Hb2 Hb4]] Hb3]]; auto. left. apply R2. auto.
+  - unfold add_blocker. destruct (contains_blocker c sigma) eqn:E; auto. simpl blk. apply NoDup_app_one; auto.
+    intros Hin. pose proof (ssub_refl sigma) as H. rewrite (Hno sigma Hin) in H. discriminate.
+Qed.
+
+
 (* ================================================================== witnesses *)
 (* boundary of the tetrahedron 0123 built through the transcribed operations *)
 Definition complete4 : cplx :=
